@@ -50,7 +50,7 @@ def generate(seed, idx, tier):
       d0, d1, two = rng.randrange(2, b), rng.randrange(2, b), False
     graft = pick(rng, [0, 0, 1, 2])
     cfg = {'block_size': b, 'best_effort_shape_interpretation': False,
-           'beta1': 0.0, 'beta2': pick(rng, [1.0, 0.999, 0.9]),
+           'beta1': 0.0, 'beta2': pick(rng, [1.0, 0.999, 0.9, 0.5]),
            'weight_decay': 0.0, 'start_preconditioning_step': 0,
            'graft_type': graft, 'eigh': rng.random() < 0.4,
            'matrix_epsilon': pick(rng, [1e-1, 1e-2, 1e-3, 1e-6]),
@@ -74,6 +74,12 @@ def generate(seed, idx, tier):
                      'skip_preconditioning_rank1': True},
            'momentum': {'momentum_decay': 0.0, 'weight_decay': 0.0}}
   T = rng.randrange(3, 9) if tier == 'quick' else rng.randrange(4, 17)
+  if sysm == 'ds' and cfg['beta2'] == 0.5:
+    # short-memory statistics run long enough for the initial epsilon*I to
+    # decay away (0.5^20 = 1e-6): the regime every real training run is in
+    # after 1/(1-beta2) steps, and the only one where rank-deficient
+    # statistics meet the relative ridge
+    T = rng.randrange(18, 27)
   spread = pick(rng, [0, 1, 2, 3, 6, 6, 12])
   ops = []
   for t in range(T):
@@ -101,6 +107,10 @@ def generate(seed, idx, tier):
           'class': f"{sysm}_{'2ax' if two else '1ax'}{'_r3' if extra is not None else ''}",
           'x64': True, 'config': cfg, 'shape': shape, 'block': b,
           'spread': spread, 'scale_seed': rng.randrange(1 << 30),
+          # overall gradient scale of the blocked tensor: small statistics are
+          # where the ridge (and the eigenvalue estimate scaling it) decides
+          # the root
+          'base_scale': 1.0 if rng.random() < 0.6 else 10.0 ** -rng.randrange(2, 7),
           'companions': companions,
           'companion_scale': 10.0 ** rng.randrange(-4, 5),
           'lr': {'kind': 'const', 'v': pick(rng, [1.0, 0.1])},
@@ -130,7 +140,9 @@ def run(plan):
   fdt = np.float64 if sysm == 'tearfree' else np.float32
   rs = np.random.Generator(np.random.PCG64(int(plan['scale_seed'])))
   exps = rs.uniform(-plan['spread'] / 2.0, plan['spread'] / 2.0, size=nblk)
-  scales = 10.0 ** exps
+  scales = 10.0 ** exps * float(plan.get('base_scale', 1.0))
+  if plan.get('base_scale', 1.0) != 1.0:
+    ctx.probe('small_base_scale')
   if plan['spread'] >= 6:
     ctx.probe('scale_spread_ge_1e6')
   if plan.get('ragged'):
